@@ -413,6 +413,9 @@ def random_cases(rng: random.Random, n: int) -> list[dict]:
                 reactions.append((r, p))
         if not reactions:
             continue
+        if rng.random() < 0.25:     # shapes a balanced generator never produces: no product at all, four or five products, a triple reactant
+            r = [rng.choice(pool)] * 3 if rng.random() < 0.3 else [rng.choice(pool) for _ in range(rng.randint(1, 3))]
+            reactions.append((r, [rng.choice(pool) for _ in range(rng.choice([0, 0, 4, 5]))]))
         if rng.random() < 0.3:      # duplicate / permuted copy of a reaction
             r, p = rng.choice(reactions)
             reactions.append((rng.sample(r, len(r)), rng.sample(p, len(p))))
@@ -500,12 +503,14 @@ def main(ctx: Ctx) -> int:
     ]
     # bundled networks (thorough): reactions and species as the real readers decoded them (decoding itself is C07's subject)
     prebuilt = {}
-    if not ctx.quick:
+    if True:
         from naunet.network import Network
         import naunet.network as nn
         import naunet.thermalprocess as tp
         nn.get_allowed_heating, nn.get_allowed_cooling = tp.get_allowed_heating, tp.get_allowed_cooling
         for label, kw in bundled_cases():
+            if ctx.quick and label not in ("minimal.kida", "kida+umist"):      # quick: one bundled file and one network merged from two formats
+                continue
             try:
                 bnet = Network(**kw)
             except Exception as e:   # noqa
